@@ -224,7 +224,11 @@ def run(tier, seed, replay=None):
                                 "syntax_errors": len(g.get("syntax_errors", []))})
     for jid in set(out.cpu_violations):
         k, src = corpus[int(jid[1:])]
-        v.violation("cpu-budget", "translation did not finish within %.0f s CPU" % common.CPU_BUDGET_S, {"source": src, "kind": k})
+        # listed finding: the overrun is inside the call of the tree-sitter parser (UiDocument::parse alone exceeds the budget);
+        # an overrun anywhere after parsing is a different violation and is reported
+        sig = "parser-call-exceeds-cpu-budget" if jid in out.cpu_in_parser else "cpu-budget"
+        v.violation(sig, "translation did not finish within %.0f s CPU%s" % (
+            common.CPU_BUDGET_S, " (UiDocument::parse alone does not)" if jid in out.cpu_in_parser else ""), {"source": src, "kind": k})
     for jid, why in out.inconclusive:
         v.inconc("%s: %s" % (jid, why))
 
